@@ -286,7 +286,9 @@ def gen_history(rng, names, fm, known0=None):
         shape = n['pos'].shape
         size = n['pos'].size
         unknown = kit and known is not None and n['slot'] not in known
-        if unknown and (not is_set or fm.out_shape[n['slot']] == ()):
+        if unknown and (not is_set or fm.out_shape[n['slot']] == () or n['indexed']
+                        or tuple(shape) != tuple(fm.out_shape[n['slot']])):
+            # (nor can a name that sees the slot through src_indices or in another shape give it its first value)
             # (a python scalar given to a variable whose shape is not known yet is taken as a (1,) array: whether
             #  () or (1,) is meant cannot be told, so 0-d variables wait for final_setup)
             continue
